@@ -407,6 +407,13 @@ def history_cases(ctx):
 
 def main(ctx):
     cov = ctx.coverage
+    # the run-level theorems are about the shot-argument table regenerated from simulator.py (shared with C10)
+    tie_broken = None
+    try:
+        from gen import determinism
+        determinism.generate()
+    except Exception as e:                      # noqa  (pyexpr.Unsupported etc.: the translator fails closed)
+        tie_broken = f"translator (harness/gen/determinism.py) fails closed on simulator.py / gates: {type(e).__name__}: {str(e)[:160]}"
     lean = ctx.lean("QG.Props.C11")
     cs = history_cases(ctx)
     reqs = []
@@ -477,8 +484,9 @@ def main(ctx):
     cov["trusted_base"] += [
         "hand-written models QG/Model/Wiring.lean + QG/Model/Reuse.lean, tied by exact differential correspondence after every operation "
         "of every history of this run (real circuit classes driven directly, recording gate set)",
-        "aliasing between the inputs of run() and the objects it mutates is outside a value-semantic model: it is decided by the bit-exact "
-        "before/after comparison of the real inputs (oracle O4) on the circuits of this run, not by a theorem"]
+        "run-level purity: theorems about the shot loop of QG.Model.IntegratorCache with the shot-argument table regenerated from "
+        "simulator.py (harness/gen/determinism.py, shared with C10); writes to the caller's objects outside the shot dict are decided by the "
+        "bit-exact before/after comparison of the real inputs (oracle O4) on the circuits of this run"]
     ctx.assumptions += ["row indices are non-negative (Python's negative indexing is not modelled)",
                         "gate-set fingerprints skip attributes whose name contains 'cache' (memoisation is not a modification a user can observe); "
                         "a gate set with visible state (call counter) is compared in full"]
@@ -496,7 +504,9 @@ def main(ctx):
             ctx.violation({"kind": "correspondence"}, {"cls": cls, "n": n, "depth": depth, "history_or_ops": hist, "diff": d,
                           "broken": "correspondence real circuit classes vs QG.Model.Reuse"},
                           f"model and implementation disagree ({d[0]}) although the oracles pass on every case", no_failing_input=True)
-        if not lean.ok:
+        if tie_broken:
+            ctx.violation({"kind": "tie"}, {"broken": tie_broken}, tie_broken + "; the oracles pass on every case", no_failing_input=True)
+        elif not lean.ok:
             ctx.violation({"kind": "proof"}, {"broken": lean.failed}, "Lean obligations of C11 do not check; the oracles pass on every case",
                           no_failing_input=True)
 
